@@ -31,7 +31,7 @@ from tartiflette import Directive, Scalar, create_engine
 
 ID = "C11"
 LEVEL = "exploration"
-QUICK_RUNS = 500
+QUICK_RUNS = 700
 CHUNK = 6
 RULE = ("seed -> schema model (objects, interfaces with several implementers, unions, enums, input objects, custom scalars, "
         "wrappers to depth 3, arguments / input fields with defaults of every value kind, descriptions, @deprecated with and "
